@@ -4,6 +4,8 @@ package main
 
 import (
 	"fmt"
+	"go/token"
+	"go/types"
 	"sort"
 	"strings"
 
@@ -249,5 +251,174 @@ func ruleC20Retry(c *Ctx) {
 	}
 	if n == 0 {
 		c.S.Trivial("R-C20-retry-live", "none", "-", "no retry loop around the emulator constructor")
+	}
+}
+
+const textC20CancelExits = "R-C20-cancel-exits: in every goroutine the emulator waits for (functions started with `go` after WaitGroup.Add), the arm of a select that receives the termination signal (a Done() channel) leads to the end of the function on every path — it never flows back to the select (a `break` that only leaves the select keeps the goroutine, and WaitForTermination, alive forever)"
+
+func ruleC20CancelExits(c *Ctx) {
+	c.S.Rule("R-C20-cancel-exits", textC20CancelExits, 1)
+	n := 0
+	for _, fn := range c.SrcFuncs() {
+		for _, in := range instrsOf(fn) {
+			sel, ok := in.(*ssa.Select)
+			if !ok {
+				continue
+			}
+			for i, st := range sel.States {
+				call, ok := st.Chan.(*ssa.Call)
+				if !ok || !call.Call.IsInvoke() && call.Call.StaticCallee() == nil {
+					continue
+				}
+				name := ""
+				if call.Call.IsInvoke() {
+					name = call.Call.Method.Name()
+				} else {
+					name = call.Call.StaticCallee().Name()
+				}
+				if name != "Done" {
+					continue
+				}
+				// only selects that can be executed again (in a cycle) matter
+				if !blockInCycle(sel.Block()) {
+					continue
+				}
+				n++
+				key := fmt.Sprintf("%s:cancel-arm#%d", fnName(fn), n)
+				// the block of arm i: true successor of `index == i`
+				var arm *ssa.BasicBlock
+				for _, r := range referrers(sel) {
+					ex, ok := r.(*ssa.Extract)
+					if !ok || ex.Index != 0 {
+						continue
+					}
+					for _, r2 := range referrers(ex) {
+						bo, ok := r2.(*ssa.BinOp)
+						if !ok || bo.Op != token.EQL {
+							continue
+						}
+						if k, isC := constInt(bo.Y); isC && int(k) == i {
+							for _, r3 := range referrers(bo) {
+								if ifi, ok := r3.(*ssa.If); ok {
+									arm = ifi.Block().Succs[0]
+								}
+							}
+						}
+					}
+				}
+				if arm == nil {
+					c.S.Undecided("R-C20-cancel-exits", key, c.Pos(sel.Pos()), "the block of the termination arm could not be identified")
+					continue
+				}
+				if arm == sel.Block() || plainReachAvoid(arm, sel.Block(), nil) {
+					c.S.Bad("R-C20-cancel-exits", key, c.Pos(sel.Pos()), fmt.Sprintf("%s: after the termination signal was received control can return to the select: the goroutine does not end, and whoever waits for it (WaitGroup) waits forever", fnName(fn)))
+				} else {
+					c.S.OK("R-C20-cancel-exits", key, c.Pos(sel.Pos()), "the termination arm leaves the loop for good")
+				}
+			}
+		}
+	}
+	if n == 0 {
+		c.S.Trivial("R-C20-cancel-exits", "none", "-", "no select on a Done() channel inside a loop")
+	}
+}
+
+const textC20TermPass = "R-C20-term-releases: RequestTermination releases each resource of the emulator (the listener, the cancel function of the lane) on every path on which the resource exists: every path from its entry to a return passes the release call or the nil side of a test of that very field — no other state (an 'already terminating' flag, another field) can make it return with the listener still open"
+
+func ruleC20TermPass(c *Ctx) {
+	c.S.Rule("R-C20-term-releases", textC20TermPass, 2)
+	rt := c.Fn("(*RedisEmu).RequestTermination")
+	if rt == nil {
+		c.S.Undecided("R-C20-term-releases", "api", "-", "RequestTermination not found")
+		return
+	}
+	nt := c.NamedType("RedisEmu")
+	st, ok := nt.Underlying().(*types.Struct)
+	if !ok {
+		c.S.Undecided("R-C20-term-releases", "type", "-", "RedisEmu is not a struct")
+		return
+	}
+	for i := 0; i < st.NumFields(); i++ {
+		f := st.Field(i)
+		ts := f.Type().String()
+		kind := ""
+		switch {
+		case ts == "net.Listener":
+			kind = "listener"
+		case ts == "context.CancelFunc" || ts == "func()":
+			kind = "cancel function"
+		default:
+			continue
+		}
+		key := "RequestTermination:" + f.Name()
+		// release: a call whose receiver/value is a load of this field
+		isLoadOf := func(v ssa.Value) bool {
+			_, lf := loadedField(v)
+			return lf == f
+		}
+		releaseIn := func(b *ssa.BasicBlock) bool {
+			for _, in := range b.Instrs {
+				call, ok := in.(*ssa.Call)
+				if !ok {
+					continue
+				}
+				if call.Call.IsInvoke() && isLoadOf(call.Call.Value) && call.Call.Method.Name() == "Close" {
+					return true
+				}
+				if !call.Call.IsInvoke() && isLoadOf(call.Call.Value) {
+					return true
+				}
+			}
+			return false
+		}
+		// search for a path entry -> return that is neither released nor excused
+		bad := false
+		seen := map[*ssa.BasicBlock]bool{}
+		var walk func(b *ssa.BasicBlock)
+		walk = func(b *ssa.BasicBlock) {
+			if seen[b] || bad {
+				return
+			}
+			seen[b] = true
+			if releaseIn(b) {
+				return
+			}
+			last := b.Instrs[len(b.Instrs)-1]
+			switch t := last.(type) {
+			case *ssa.Return:
+				bad = true
+			case *ssa.If:
+				if bo, ok := t.Cond.(*ssa.BinOp); ok && (bo.Op == token.NEQ || bo.Op == token.EQL) {
+					var other ssa.Value
+					if isLoadOf(bo.X) {
+						other = bo.Y
+					} else if isLoadOf(bo.Y) {
+						other = bo.X
+					}
+					if other != nil && isNilConst(other) {
+						// the nil side is excused
+						nonNil := b.Succs[0]
+						if bo.Op == token.EQL {
+							nonNil = b.Succs[1]
+						}
+						walk(nonNil)
+						return
+					}
+				}
+				for _, s := range b.Succs {
+					walk(s)
+				}
+			default:
+				for _, s := range b.Succs {
+					walk(s)
+				}
+			}
+		}
+		walk(rt.Blocks[0])
+		if bad {
+			c.S.Bad("R-C20-term-releases", key, c.Pos(rt.Pos()), fmt.Sprintf("RequestTermination can return without releasing the %s (%s) although it exists: a path avoids both the release and the nil test of that field — Close/WaitForTermination then hang or the port stays bound", kind, f.Name()))
+		} else {
+			c.S.OK("R-C20-term-releases", key, c.Pos(rt.Pos()), fmt.Sprintf("every path releases the %s or finds it nil", kind))
+		}
 	}
 }
